@@ -178,7 +178,7 @@ GRADE_SELECT = {
 }
 
 
-@rule("C03.table", props=["C03", "C14"], min_instances=42, mutants=[
+@rule("C03.table", props=["C03", "C14", "C01", "C07"], min_instances=63, mutants=[
     ("cp filter reads the transposed sign with dict.get (bypasses the lazy table)", ("codegen", "filter_func = lambda kx, ky, k_out: (algebra.signs[kx, ky] - algebra.signs[ky, kx])", "filter_func = lambda kx, ky, k_out: algebra.signs[kx, ky] != algebra.signs.get((ky, kx))")),
     ("cp halves nothing but drops the sign", ("codegen", "            termstr = vx * vy if sign > 0 else (- vx * vy)", "            termstr = vx * vy if sign > 0 or filter_func else (- vx * vy)")),
 ])
@@ -195,6 +195,11 @@ def table(ctx):
         # operands of different grade profiles: the top grade of one exceeds the top grade of the other
         reps["rotor x vector[+,+,-]"] = ([1, 1, -1], (0, 3, 5), (1, 2, 4), None, False)
         reps["vector x rotor[+,+,-]"] = ([1, 1, -1], (4, 1), (6, 0, 3), None, False)
+        # an operand stored as a pure scalar (key pattern (0,)) on either side
+        reps["scalar x mixed[+,+,-]"] = ([1, 1, -1], (0,), (1, 3, 6, 0), None, False)
+        reps["mixed x scalar[+,+,-]"] = ([1, 1, -1], (2, 5, 7), (0,), None, False)
+        # a real 7-dimensional algebra (d > 6), signature not laid out 0.., +.., -..
+        reps["7-D lazy[+,-,+,+,0,+,+]"] = ([1, -1, 1, 1, 0, 1, 1], (1, 3, 16, 17, 96, 127, 2), (3, 16, 48, 127, 5, 64, 1), None, True)
         for rep_name, (signature, xk, yk, basis, lazy) in reps.items():
             c = f"codegen.{row.codegen}#table:{rep_name}"
             got = run_product(ctx, repo, row.codegen, signature, xk, yk, c, basis=basis, lazy=lazy)
